@@ -127,8 +127,12 @@ def convert_response(response) -> List[Trigger]:
     all_triggers: Dict[str, Trigger] = {}
     for r in response:
         # from the incoming tracepoints create a Trigger with actions
-        trigger = build_trigger(r.ID, r.path, r.line_number, dict(r.args), [w for w in r.watches],
-                                __convert_metric_definition(r.metrics))
+        try:
+            trigger = build_trigger(r.ID, r.path, r.line_number, dict(r.args), [w for w in r.watches],
+                                    __convert_metric_definition(r.metrics))
+        except ValueError:
+            # e.g. a metric type we do not know (the enum is open on the wire): as any tracepoint we cannot interpret
+            trigger = None
         if trigger is None:
             # a tracepoint we cannot interpret must not stop the other tracepoints from being installed
             logging.warning("Cannot create tracepoint %s at %s:%s with args %s", r.ID, r.path, r.line_number,
